@@ -27,9 +27,14 @@ pub fn fixed_random_state() -> std::hash::RandomState {
 /// the queried address, and another one
 const A: Address = Address::new([0xaa; 20]);
 const B: Address = Address::new([0xcc; 20]);
-/// the two CONCRETE storage keys
-const K1: U256 = U256::from_limbs([1, 0, 0, 0]);
-const K2: U256 = U256::from_limbs([2, 0, 0, 0]);
+/// the two CONCRETE storage keys.
+/// Why these values: under the fixed seed 0xaa..aa, 0xcc..cc, 3 and 11 all hash to bucket 0 of a 4-bucket table, so the first
+/// key of every table sits in bucket 0.  Measured: only then does CBMC constant-fold hashbrown's SSE2 group match
+/// (`simd_bitmask`) of a later probe; with the first key in bucket 1..3 (e.g. keys 1 then 3, or address 0xbb..bb) the match
+/// mask stays symbolic, the probe loops are unrolled to the unwind bound with a memcmp each, and the run does not finish
+/// (20 min / > 12 GB).  The choice is part of the stated bound, not of the oracle.
+const K1: U256 = U256::from_limbs([3, 0, 0, 0]);
+const K2: U256 = U256::from_limbs([11, 0, 0, 0]);
 
 fn any_u256() -> U256 { U256::from_limbs(kani::any()) }
 /// limb-wise (derived `==` on U256 is a 32-iteration memcmp)
@@ -246,25 +251,3 @@ macro_rules! basic_ref {
 }
 basic_ref!(basic_ref_not_cached, false, false, 0);
 basic_ref!(basic_ref_cached_0, true, true, 0);
-has!(tmp_other_cached_0, true, false, 0);
-macro_rules! tmp_probe {
-    ($name:ident, $b:expr, $sym:expr) => {
-        #[kani::proof]
-        #[kani::unwind(34)]
-        #[kani::stub(std::hash::RandomState::new, fixed_random_state)]
-        fn $name() {
-            let mut m: HashMap<Address, u8> = HashMap::default();
-            let v: u8 = if $sym { kani::any() } else { 7 };
-            m.insert(Address::new([$b; 20]), v);
-            let r = m.get(&A);
-            assert!(r.is_none());
-            kani::cover!(v == 7);
-            core::mem::forget(m);
-        }
-    };
-}
-tmp_probe!(tmp_probe_bb_sym, 0xbb, true);
-tmp_probe!(tmp_probe_bb_conc, 0xbb, false);
-tmp_probe!(tmp_probe_dd_sym, 0xdd, true);
-tmp_probe!(tmp_probe_ee_sym, 0xee, true);
-tmp_probe!(tmp_probe_22_sym, 0x22, true);
